@@ -103,6 +103,39 @@ def matrix(c, variant):
     return cases
 
 
+def h1_executions(trace_path, r, cid, needsum):
+    """Project one process run into executions for WorkerQueueAbsTrace: per queue of the process, Reset, its H1 events by
+    sequence number, the harness's Summary (last queue only, if printed), End.  r is the vf.run result.  Reused by C31."""
+    hooks, junk = [], 0
+    if os.path.exists(trace_path):
+        for ln in open(trace_path, errors="replace"):
+            try:
+                hooks.append(json.loads(ln))
+            except ValueError:
+                junk += 1
+    hooks.sort(key=lambda e: e.get("seq", 0))
+    evs = []
+    queues = sorted(set(e.get("q", 1) for e in hooks)) or [1]
+    for q in queues:
+        evs.append({"e": "Reset"})
+        evs += [{k: e[k] for k in H1_FIELDS} for e in hooks if e.get("q", 1) == q]
+        summ = None
+        if needsum and q == queues[-1]:
+            for ln in r.out.splitlines():
+                if ln.startswith('{"e":"Summary"'):
+                    try:
+                        summ = json.loads(ln)
+                    except ValueError:
+                        pass
+            if summ:
+                evs.append(summ)
+        evs.append({"e": "End", "exit": r.exit if not r.sig else 0, "sig": r.sig, "timeout": bool(r.timeout),
+                    "tsan": r.err.count("WARNING: ThreadSanitizer"), "needsum": bool(needsum), "junk": junk})
+    for e in evs:
+        e["c"] = cid
+    return evs
+
+
 def run_case(c, binaries, case, cid):
     """Run one execution; return its event list (Reset ... End).  Only records."""
     d = os.path.join(c.workdir, "run", str(cid))
@@ -127,33 +160,7 @@ def run_case(c, binaries, case, cid):
             break
     if r.timeout:
         _hangs[0] += 1
-    hooks, junk = [], 0
-    if os.path.exists(tr):
-        for ln in open(tr, errors="replace"):
-            try:
-                hooks.append(json.loads(ln))
-            except ValueError:
-                junk += 1
-    hooks.sort(key=lambda e: e.get("seq", 0))
-    evs = []
-    queues = sorted(set(e.get("q", 1) for e in hooks)) or [1]
-    for q in queues:
-        evs.append({"e": "Reset"})
-        evs += [{k: e[k] for k in H1_FIELDS} for e in hooks if e.get("q", 1) == q]
-        summ = None
-        if q == queues[-1]:
-            for ln in r.out.splitlines():
-                if ln.startswith('{"e":"Summary"'):
-                    try:
-                        summ = json.loads(ln)
-                    except ValueError:
-                        pass
-            if summ:
-                evs.append(summ)
-        evs.append({"e": "End", "exit": r.exit if not r.sig else 0, "sig": r.sig, "timeout": bool(r.timeout),
-                    "tsan": r.err.count("WARNING: ThreadSanitizer"), "needsum": True, "junk": junk})
-    for e in evs:
-        e["c"] = cid
+    evs = h1_executions(tr, r, cid, needsum=True)
     shutil.rmtree(d, ignore_errors=True)
     return evs, r, attempts
 
@@ -168,6 +175,64 @@ def overlapping(evs):
         elif e["e"] == "NotifyEnd":
             holding.discard(e["w"])
     return overlap
+
+
+def selftest(c, good):
+    """Converse binding: corrupt one recorded fact of an accepted execution at a time; TLC must reject every variant.
+    (A trace specification that accepts these would make the campaign's acceptances meaningless: infrastructure failure.)"""
+    body = [dict(e) for e in good]
+    idx = lambda name, k=0: [i for i, e in enumerate(body) if e["e"] == name][k]
+    variants = []
+
+    def variant(name, f):
+        evs = [dict(e) for e in body]
+        try:
+            evs = f(evs) or evs
+        except IndexError:
+            return
+        variants.append((name, evs))
+
+    variant("Pop event deleted", lambda v: v[:idx("Pop")] + v[idx("Pop") + 1:])
+
+    def swap_pops(v):
+        a, b = idx("Pop", 0), idx("Pop", 1)
+        v[a]["t"], v[b]["t"] = v[b]["t"], v[a]["t"]
+    variant("two Pops out of FIFO order", swap_pops)
+    variant("WaitReturn deleted (hang)", lambda v: v[:idx("WaitReturn")] + v[idx("WaitReturn") + 1:])
+    variant("DonePush duplicated", lambda v: v[:idx("DonePush") + 1] + [dict(v[idx("DonePush")])] + v[idx("DonePush") + 1:])
+    variant("WorkerExit deleted", lambda v: v[:idx("WorkerExit")] + v[idx("WorkerExit") + 1:])
+
+    def early_down(v):
+        sd, last = idx("SetDown"), idx("Schedule", -1)
+        ev = v.pop(sd)
+        v.insert(last + 1, ev)
+    variant("SetDown while todo is not empty", early_down)
+
+    def overlap(v):
+        nb = idx("NotifyBegin")
+        j = [i for i, e in enumerate(v) if i > nb and e["e"] == "DonePush" and e["w"] != v[nb]["w"]][0]
+        ev = v.pop(j)
+        v.insert(nb, ev)
+    variant("DonePush of another worker inside a notification", overlap)
+
+    def perf_twice(v):
+        v[idx("Summary")]["perf"] = [2] + v[idx("Summary")]["perf"][1:]
+    variant("Summary: a task performed twice", perf_twice)
+
+    def tsan(v):
+        v[idx("End")]["tsan"] = 1
+    variant("End: one ThreadSanitizer report", tsan)
+
+    evs, bounds = [], []
+    for name, v in variants:
+        bounds.append((len(evs) + 1, len(evs) + len(v), name))
+        evs += v
+    r = vf.tlc_validate("WorkerQueueAbsTrace.tla", "WorkerQueueAbsTrace.cfg", evs)
+    rejected = set(name for (i, e, v) in r["bad"] for (lo, hi, name) in bounds if lo <= i <= hi)
+    missed = [name for (lo, hi, name) in bounds if name not in rejected]
+    c.cov["trace_spec_selftest"] = {"corrupted_variants": len(variants), "rejected": len(rejected)}
+    if missed or len(variants) < 7:
+        vf.infra("WorkerQueueAbsTrace accepts corrupted executions: %s (variants built: %d)" % (missed, len(variants)))
 
 
 def main():
@@ -210,13 +275,21 @@ def main():
         return {"case.json": dict(cases[i], kind="run") if 0 <= i < len(cases) else {},
                 "trace.ndjson": "".join(json.dumps(e) + "\n" for e in by_case.get(i, []))}
 
-    shards = [[] for _ in range(vf.JOBS)]
+    total = sum(len(v) for v in by_case.values())
+    shards = [[] for _ in range(min(vf.JOBS, total // 15000 + 1))]          # ~0.5 ms per event; a JVM start costs seconds
     order = sorted(range(len(cases)), key=lambda i: -len(by_case[i]))
     for k, i in enumerate(order):                                          # balance by size
         shards[k % len(shards)] += by_case[i]
     shards = [s for s in shards if s]
-    vf.pmap(lambda evs: c.validate("WorkerQueueAbsTrace.tla", "WorkerQueueAbsTrace.cfg", evs, case_of=case_of,
-                                   traces=sum(1 for e in evs if e["e"] == "Reset")), shards)
+    good = [by_case[i] for i, x in enumerate(cases) if x["variant"] == "hooks" and x["W"] >= 3 and 5 <= x["N"] <= 20 and x["notifier"]
+            and len(set(e["w"] for e in by_case[i] if e["e"] == "DonePush")) >= 2]
+    jobs = [lambda evs=evs: c.validate("WorkerQueueAbsTrace.tla", "WorkerQueueAbsTrace.cfg", evs, case_of=case_of,
+                                       traces=sum(1 for e in evs if e["e"] == "Reset")) for evs in shards]
+    if good:
+        jobs.append(lambda: selftest(c, good[0]))
+    vf.pmap(lambda f: f(), jobs)
+    if not good and not c.violations:
+        vf.infra("no execution suitable for the trace-specification self-test")
 
     mark("validation")
     c.cov["phase_s"] = phase
